@@ -10,6 +10,8 @@ open Proto LLH
       counts <n_events arg | -> <raw events> <selected events>   -> N N' N-N'
       sel  <opa> <n_events arg | -> <ns> <Rs of all raw events> <keep 0/1 list>   -> as llr, through evalSel
       chk  <opa> <N> <ns> <Rs>                    -> none | value   (llrChecked)
+      rex  <opa> <N> <ns> <expr>                  -> none | as llr;  expr in prefix form: L <list> | P <expr> <expr> | S <zb> <s> <b>
+      trl  <opa> {T <n_events arg | -> <Rs> <keep> | E <ns>}   -> the values of the E steps (x = the code raises): trialRun
 -/
 def sumAbs (opa : Float) (N : Nat) (ns : Float) (Rs : List Float) : Float :=
   (Rs.map (fun R => (logLambdaI opa ns (xOfRatio N R)).abs)).foldl (· + ·) 0
@@ -17,6 +19,25 @@ def sumAbs (opa : Float) (N : Nat) (ns : Float) (Rs : List Float) : Float :=
 
 def report (opa : Float) (N : Nat) (ns : Float) (Rs : List Float) : String :=
   s!"{fF (llrOfRatios opa N ns Rs)} {fF (sumAbs opa N ns Rs)} {nUnstable opa N ns Rs}"
+
+/-- prefix parser for `RExpr`; returns the expression and the remaining tokens -/
+partial def parseExpr : List String → Option (RExpr Float × List String)
+  | "L" :: r :: rest => some (.leaf (pList pF r), rest)
+  | "S" :: zb :: s :: b :: rest => some (.sob (pF zb) (pList pF s) (pList pF b), rest)
+  | "P" :: rest =>
+      match parseExpr rest with
+      | some (a, rest1) =>
+          match parseExpr rest1 with
+          | some (b, rest2) => some (.prod a b, rest2)
+          | none => none
+      | none => none
+  | _ => none
+
+def parseTrialOps : List String → List (TrialOp Float)
+  | "T" :: narg :: rs :: keep :: rest =>
+      .newTrial (if narg == "-" then none else some (pN narg)) (pList pF rs) (pList pB keep) :: parseTrialOps rest
+  | "E" :: ns :: rest => .eval (pF ns) :: parseTrialOps rest
+  | _ => []
 
 def answer (line : String) : String :=
   match tokens line with
@@ -38,6 +59,15 @@ def answer (line : String) : String :=
       match llrChecked (pF opa) (pN n) (pF ns) (pList pF rs) with
       | some v => fF v
       | none => "none"
+  | "rex" :: opa :: n :: ns :: rest =>
+      match parseExpr rest with
+      | some (e, []) =>
+          match e.eval with
+          | some Rs => report (pF opa) (pN n) (pF ns) Rs
+          | none => "none"
+      | _ => "bad-expr"
+  | "trl" :: opa :: rest =>
+      fListD (fun o => match o with | some v => fF v | none => "x") (trialRun (pF opa) none (parseTrialOps rest))
   | ["counts", narg, nraw, nsel] =>
       let a : Option Nat := if narg == "-" then none else some (pN narg)
       let c := trialCounts a (pN nraw) (pN nsel)
